@@ -7,6 +7,7 @@ import (
 	"context"
 	"fmt"
 	"mime/multipart"
+	"net/url"
 	"runtime/debug"
 	"sort"
 	"strings"
@@ -102,6 +103,27 @@ func (w *world) add(top files.Directory, p *api.AddParams, v variant, f *fault, 
 			res.stack = trimStack(string(debug.Stack()))
 		}
 	}()
+	if viaMultipart {
+		// the REST path: the client library writes the parameters into the
+		// query string (ToQueryString), the server reads them back
+		// (AddParamsFromQuery). What the adder gets is the server's reading.
+		qs, err := p.ToQueryString()
+		if err != nil {
+			res.err = fmt.Errorf("parameters do not survive the query string: %v", err)
+			return res
+		}
+		q, err := url.ParseQuery(qs)
+		if err != nil {
+			res.err = fmt.Errorf("parameters do not survive the query string: %v", err)
+			return res
+		}
+		p2, err := api.AddParamsFromQuery(q)
+		if err != nil {
+			res.err = fmt.Errorf("parameters do not survive the query string: %v", err)
+			return res
+		}
+		p = p2
+	}
 	var dgs adder.ClusterDAGService
 	if p.Shard {
 		dgs = sharding.New(w.client, p.PinOptions, nil)
